@@ -212,7 +212,18 @@ def run_unit(tpl_path, rlimit=None, keep_dir=None, extra_args=(), timeout=900):
         res["tool_errors"].append("verus produced no JSON (exit %s): %s" % (p.returncode, p.stderr[-500:]))
     # resource-limit failures show up as function success=false without a semantic diagnostic
     failed_fns = set(k.split("::")[-1] for k, v in res["functions"].items() if v["success"] is False)
-    explained = set(f_["fn"] for f_ in res["failures"]) | canary_failed
+    explained = set(f_["fn"] for f_ in res["failures"] if f_["fn"]) | canary_failed
+    # semantic diagnostics without a source location (e.g. the postcondition that a *SpecImpl trait attaches to a trait
+    # method such as From::from) are attributed to the failing functions that have no located diagnostic
+    unlocated = [f_ for f_ in res["failures"] if not f_["fn"]]
+    for fnm in sorted(failed_fns - explained):
+        if unlocated:
+            u = unlocated.pop(0) if len(unlocated) > 1 else unlocated[0]
+            recs = [r_ for r_ in records if fnm == r_.get("fn_name") or fnm in (r_.get("fn_names") or [])]
+            res["failures"].append(dict(u, fn=fnm, record=recs[0] if len(recs) == 1 else None,
+                                        clause="(contract attached through a *SpecImpl trait; no source location given by Verus)"))
+            explained.add(fnm)
+    res["failures"] = [f_ for f_ in res["failures"] if f_["fn"]]
     for fnm in failed_fns - explained:
         if not any(fnm in t for t in res["tool_errors"]):
             res["tool_errors"].append("function %s failed without a semantic diagnostic (rlimit?)" % fnm)
